@@ -544,6 +544,68 @@ def run_reentrant_function_pairs(w) -> None:
         async_l.unload()
 
 
+ADAPTER_SOURCE = '''
+import functools
+import icontract
+
+
+def adapter(func):
+    """A third-party decorator between the contracts and the function: {what}."""
+    @functools.wraps(func)
+    {a}def wrapper(*args, **kwargs):
+        HUB.log("foreign", "adapter", None, None)
+        return func(*args, **kwargs)
+    return wrapper
+
+
+{a}def slow_pre(x):
+    HUB.cond("pre2", {{"x": x}})
+    return True
+
+
+@icontract.require(lambda x: HUB.cond("pre", {{"x": x}}))
+@icontract.require(slow_pre)
+@icontract.snapshot(lambda x: HUB.capture("cap", {{"x": x}}), name="before")
+@icontract.ensure(lambda result, OLD: HUB.cond("post", {{"result": result}}))
+@adapter
+def f(x):
+    HUB.body("f", {{"x": x}})
+    return x
+'''
+
+
+def run_adapter_pairs(w) -> None:
+    """What is called - and has to be awaited - is the callable the contracts are applied to, not the function at the bottom of its
+    `__wrapped__` chain: an `async def` adapter (functools.wraps) around a plain function is an async callable, its twin with a plain
+    adapter a sync one; both give the same trace and outcome."""
+    sync_l = prog.load_source(ADAPTER_SOURCE.format(a="", what="a plain wrapper"), w.scratch())
+    async_l = prog.load_source(ADAPTER_SOURCE.format(a="async ", what="an async wrapper around the plain function"), w.scratch())
+    try:
+        for truth in ({}, {"pre": False}, {"pre2": False}, {"post": False}):
+            traces = []
+            for loaded in (sync_l, async_l):
+                loaded.hub.reset()
+                loaded.hub.truth = dict(truth)
+                try:
+                    res = loaded.module.f(probe.Tok("x"))
+                    if inspect.iscoroutine(res):
+                        res = probe.drive(res)
+                    outcome = "return {!r}".format(res)
+                except BaseException as err:  # pylint: disable=broad-except
+                    outcome = "raise " + type(err).__name__
+                traces.append(([(e.kind, e.id) for e in loaded.hub.events], outcome))
+            w.count("pairs_compared")
+            w.count("adapter_pairs_compared")
+            w.count("events_compared", len(traces[0][0]))
+            w.case(("adapter-pair", tuple(sorted(truth))))
+            if traces[0] != traces[1]:
+                w.violation("C13/async-adapter-over-a-plain-function-differs-from-its-sync-twin", "truth {}: sync {} vs async {}".format(
+                    truth, traces[0], traces[1]), {"adapter_pair": sorted(truth)})
+    finally:
+        sync_l.unload()
+        async_l.unload()
+
+
 def specs(w):
     rng = w.rng
     thorough = w.tier == "thorough"
@@ -582,6 +644,7 @@ def run(w) -> None:
         run_signature_pairs(w)
         run_nested_pairs(w)
         run_reentrant_function_pairs(w)
+        run_adapter_pairs(w)
     w.exhaustive = False
 
 
@@ -591,6 +654,9 @@ def replay(case, w) -> None:
         return
     if "nested_pair" in case:
         run_nested_pairs(w)
+        return
+    if "adapter_pair" in case:
+        run_adapter_pairs(w)
         return
     if "reentrant_function_pair" in case:
         run_reentrant_function_pairs(w)
